@@ -192,7 +192,7 @@ fn make_queries(c: &mut Case, seqs: &[S], k: usize, max_nodes: usize) -> Vec<S> 
         q.push(f);
         q.push(l);
     }
-    for _ in 0..200 {
+    for _ in 0..(if c.lane_miri { 6 } else { 200 }) {
         q.push(c.rng.bases(k, 4));
     }
     q
@@ -301,6 +301,9 @@ fn run_base<K: Kmer + Send + Sync>(
             compare(&s0, &sp, &queries, &format!("finish() on a {}-thread pool (rep {}, {} nodes) vs finish_serial()", t, rep, base.len()))?;
         }
     }
+    if c.lane_miri {
+        return Ok(());
+    }
     // global pool as well (what an ordinary caller gets)
     log_reset();
     let g = base.clone().finish();
@@ -376,7 +379,7 @@ pub fn run_c19(ctx: &Ctx, sizes_override: Option<Vec<usize>>) -> serde_json::Val
     };
     let st = &stats;
     // small graphs from reads: one driver thread (the spy log is process-global)
-    let n = ctx.n(300, 20_000);
+    let n = if ctx.is_miri() { 0 } else { ctx.n(300, 20_000) };
     ctx.run_group_t("from_reads", n, false, 1, |c| match c.rng.below(4) {
         0 => c19_reads::<Kmer4>(c, st),
         1 => c19_reads::<Kmer6>(c, st),
@@ -387,7 +390,7 @@ pub fn run_c19(ctx: &Ctx, sizes_override: Option<Vec<usize>>) -> serde_json::Val
         Some(v) => v,
         None => {
             if ctx.is_miri() {
-                vec![0, 1, 5]
+                vec![6]
             } else if ctx.tier == Tier::Thorough {
                 vec![0, 1, 2, 5, 50, 1000, 20_000, 100_000, 150_000, 500_000, 2_000_000]
             } else {
@@ -400,7 +403,7 @@ pub fn run_c19(ctx: &Ctx, sizes_override: Option<Vec<usize>>) -> serde_json::Val
     ctx.run_group_t("synthetic", sizes.len() as u64, false, 1, move |c| {
         let n_nodes = szs[c.idx as usize];
         let pools: Vec<usize> = if c.lane_miri {
-            vec![2, 3]
+            vec![3]
         } else if n_nodes >= 500_000 {
             vec![1, 4, 16]
         } else if n_nodes >= 100_000 {
